@@ -11,7 +11,7 @@ PROPS = {
         assumptions=["NOR program = bitwise AND; a torn program clears any subset of the bits to clear"],
     ),
     "C15": dict(
-        modules=["Fuota.Props.C15"],
+        modules=["Fuota.Props.C15", "Fuota.Props.C15b"],
         suites=[dict(name="d5g", cfg="matrix"),
                 dict(name="d5s", cfg="matrix", keys=["res", "maxl", "fw", "par"])],
         rule="d5g: one start_update call per (fragment size, count, slot size) boundary class or near-fit geometry; "
